@@ -657,3 +657,32 @@ def positions_between(body, frm, to):
         for p in body.pred[b]:
             q.append(p)
     return fwd & back
+
+
+def block_conditions(body, bb, res=None):
+    """Conditions that hold whenever `bb` executes, from its controlling edges:
+    ('variant', scrutinee_expr, name) / ('bool', cond_expr, truth) / ('int', expr, value)."""
+    res = res or Resolver(body)
+    out = []
+    for S, label in controlling_edges(body, bb):
+        t = body.blocks[S]['t']
+        if t.get('variants'):
+            v = variant_of_edge(body, S, label)
+            out.append(('variant', res.place(t['discr_of']), v, S))
+        elif t.get('sty') == 'bool':
+            out.append(('bool', res.operand(t['switch']), bool_truth(body, S, label), S))
+        else:
+            out.append(('int', res.operand(t['switch']), label, S))
+    return out
+
+
+def ret_variant_blocks(body, adt):
+    """{variant: [bb]} for statements `_0 = adt::Variant{..}` (directly or via a temp moved into _0)."""
+    out = {}
+    for bi, blk in enumerate(body.blocks):
+        for st in blk['s']:
+            if 'assign' in st and 'aggregate' in st['rv']:
+                k = st['rv']['aggregate']
+                if isinstance(k, dict) and k.get('adt') == adt:
+                    out.setdefault(k['variant'], []).append((bi, st['assign']['l']))
+    return out
